@@ -33,7 +33,8 @@ Record state := mkState {
   in_syscall : bool;
   fn_hash : word;
   mem : list ((Z * Z) * word);          (* (ctx, addr) -> word, newest binding first *)
-  adv : list Z                          (* advice stack, top first *)
+  adv : list Z;                         (* advice stack, top first *)
+  olog : list op                        (* operation recorded in each trace row, newest first *)
 }.
 
 Inductive result (A : Type) : Type :=
@@ -62,21 +63,24 @@ Definition init_state (inputs : list Z) (advice : list Z) : state :=
   let over := (n - 16)%nat in
   mkState (pad_to 16 inputs)
           (map (fun i => P - 1 - Z.of_nat i) (seq 0 over))
-          [] 0 0 FMP_MIN false ZERO_WORD [] advice.
+          [] 0 0 FMP_MIN false ZERO_WORD [] advice [].
 
+Definition log_op (o : op) (s : state) : state :=
+  mkState (stk s) (oaddr s) (saved s) (clk s) (ctx s) (fmp s) (in_syscall s) (fn_hash s) (mem s) (adv s)
+          (o :: olog s).
 Definition depth (s : state) : nat := length (stk s).
 Definition get (s : state) (i : nat) : Z := nth i (stk s) 0.
 
 Definition set_stack (s : state) (st : list Z) (oa : list Z) : state :=
-  mkState st oa (saved s) (clk s) (ctx s) (fmp s) (in_syscall s) (fn_hash s) (mem s) (adv s).
+  mkState st oa (saved s) (clk s) (ctx s) (fmp s) (in_syscall s) (fn_hash s) (mem s) (adv s) (olog s).
 Definition set_fmp (s : state) (f : Z) : state :=
-  mkState (stk s) (oaddr s) (saved s) (clk s) (ctx s) f (in_syscall s) (fn_hash s) (mem s) (adv s).
+  mkState (stk s) (oaddr s) (saved s) (clk s) (ctx s) f (in_syscall s) (fn_hash s) (mem s) (adv s) (olog s).
 Definition set_mem (s : state) (m : list ((Z * Z) * word)) : state :=
-  mkState (stk s) (oaddr s) (saved s) (clk s) (ctx s) (fmp s) (in_syscall s) (fn_hash s) m (adv s).
+  mkState (stk s) (oaddr s) (saved s) (clk s) (ctx s) (fmp s) (in_syscall s) (fn_hash s) m (adv s) (olog s).
 Definition set_adv (s : state) (a : list Z) : state :=
-  mkState (stk s) (oaddr s) (saved s) (clk s) (ctx s) (fmp s) (in_syscall s) (fn_hash s) (mem s) a.
+  mkState (stk s) (oaddr s) (saved s) (clk s) (ctx s) (fmp s) (in_syscall s) (fn_hash s) (mem s) a (olog s).
 Definition set_clk (s : state) (c : Z) : state :=
-  mkState (stk s) (oaddr s) (saved s) c (ctx s) (fmp s) (in_syscall s) (fn_hash s) (mem s) (adv s).
+  mkState (stk s) (oaddr s) (saved s) c (ctx s) (fmp s) (in_syscall s) (fn_hash s) (mem s) (adv s) (olog s).
 
 (* Replace the top k elements by `new`.  |new| - k is -1, 0 or +1 for every operation:
    -1 is a left shift (a ZERO enters at the bottom when the depth is 16, otherwise the top
